@@ -288,7 +288,7 @@ func uriText(t *rapid.T, label string) string {
 	case 1:
 		return strings.ToValidUTF8(rapid.String().Draw(t, label+"-unicode"), "�")
 	case 2:
-		return rapid.SampledFrom([]string{"a", "secret", "db1"}).Draw(t, label+"-plain")
+		return rapid.SampledFrom([]string{"a", "secret", "db1", "0", "1", "-1", "true", "false", "00", "null", "KEY"}).Draw(t, label+"-plain")
 	default:
 		return joinTokens(t, uriTokens, label)
 	}
@@ -308,7 +308,7 @@ func simpleText(t *rapid.T, label string) string {
 			return -1
 		}, rapid.String().Draw(t, label+"-unicode"))
 	case 2:
-		s = rapid.SampledFrom([]string{"a", "secret", "db1"}).Draw(t, label+"-plain")
+		s = rapid.SampledFrom([]string{"a", "secret", "db1", "0", "1", "-1", "true", "false", "00", "null", "KEY"}).Draw(t, label+"-plain")
 	case 3: // leading space(s)
 		s = rapid.SampledFrom([]string{" ", "  "}).Draw(t, label+"-lead") + joinTokens(t, simpleTokens, label)
 	case 4: // trailing space(s)
